@@ -29,7 +29,7 @@ UNIT = dict(
             ("addarg", ["try_join", "call"], TR, 2),
             ("sub", "ledger-guard", r"Registration \{\s*key: Some\(key\),\s*in_flight: Arc::clone\(&self\.in_flight\),\s*\}", "vx_guard_registration(Registration { key: Some(key), in_flight: Arc::clone(&self.in_flight) }, Tracked(tr))", 1),
             ("sub", "ledger-take", r"registration\.key\.take\(\)", "vx_take_key(&mut registration.key, Tracked(tr))", 1),
-            ("sub", "R13-pin", r"Box::pin\(future\)", "future", 1),
+            ("wrapcalls", "R13-pin", r"Box::pin", "({args})", -1),
         ]),
         "CoalesceFuture::poll@Future": dict(skip_sig_check=True, rules=[
             ("sub", "R13-pin", r"let this = unsafe \{ self\.get_unchecked_mut\(\) \};", "let this = self;", 1),
